@@ -262,6 +262,24 @@ func (c *countingWriter) Write(p []byte) (int, error) {
 	return c.ResponseWriter.Write(p)
 }
 
+// bufferingWriter keeps status and body until it is written out (see the swapbuf filter kind).
+type bufferingWriter struct {
+	hdr    http.Header
+	status int
+	buf    []byte
+}
+
+func (b *bufferingWriter) Header() http.Header { return b.hdr }
+func (b *bufferingWriter) WriteHeader(s int) {
+	if b.status == 0 {
+		b.status = s
+	}
+}
+func (b *bufferingWriter) Write(p []byte) (int, error) {
+	b.buf = append(b.buf, p...)
+	return len(p), nil
+}
+
 func (e *chainEnv) checkReq(req *http.Request) {
 	if ReqID(req) != curReqID() {
 		_, res := e.res()
@@ -280,6 +298,7 @@ func (e *chainEnv) filter(f FSpec) restful.FilterFunction {
 		e.crash("pre:" + tag)
 		e.appWrite(resp, fbytes("pre-"+tag, r.ID, f.Pre))
 		own := resp
+		var unswap func()
 		switch f.Kind {
 		case "short":
 			e.ev("short:" + tag)
@@ -293,8 +312,27 @@ func (e *chainEnv) filter(f FSpec) restful.FilterFunction {
 		case "newresp":
 			resp = restful.NewResponse(&countingWriter{ResponseWriter: resp.ResponseWriter, env: e, tag: tag})
 			res.wrapStack = append(res.wrapStack, tag)
+		case "swapbuf":
+			// what http.TimeoutHandler or an ETag filter does: the writer inside the Response is swapped for
+			// one that buffers everything and is written out only when the rest of the chain has returned
+			// normally; when a panic passes through, the buffer is simply abandoned
+			orig := resp.ResponseWriter
+			bw := &bufferingWriter{hdr: orig.Header()}
+			resp.ResponseWriter = bw
+			unswap = func() {
+				resp.ResponseWriter = orig
+				if bw.status != 0 {
+					orig.WriteHeader(bw.status)
+				}
+				if len(bw.buf) > 0 {
+					orig.Write(bw.buf)
+				}
+			}
 		}
 		next(req, resp)
+		if unswap != nil {
+			unswap()
+		}
 		if f.Kind == "newresp" {
 			res.wrapStack = res.wrapStack[:len(res.wrapStack)-1]
 		}
@@ -777,6 +815,7 @@ type chainKnobs struct {
 	early        bool
 	warm         bool // allow a warm-up phase before all filters are registered
 	wfaults      int  // permille of requests whose client goes away (writer starts failing)
+	swapbuf      bool // filter kind swapbuf (buffering writer swapped into the Response)
 	addCE        bool // a share of the route functions add their own Content-Encoding value
 	cancels      int  // permille of non-panicking requests whose context is cancelled at some point
 }
@@ -786,6 +825,9 @@ func genFilters(tp *sim.Tape, k chainKnobs, max int) []FSpec {
 	kinds := []string{"pass"}
 	if k.richFilters {
 		kinds = []string{"pass", "attr", "short", "newreq", "newresp", "mw-pass", "mw-wrap", "mw-short", "pass", "attr"}
+	}
+	if k.swapbuf {
+		kinds = append(append([]string{}, kinds...), "swapbuf")
 	}
 	tp.Repeat(0, max, 550, func(int) {
 		f := FSpec{Kind: kinds[tp.G(len(kinds))]}
